@@ -27,7 +27,10 @@ one buffer (a moved or reallocated buffer breaks this); the process runs with an
 poisons and quarantines freed 256-multiple blocks and always moves on realloc, so a stale slice \
 reads 0xDD. Class A (every reply of the batch was already read from the transport when the first \
 item was yielded) is judged; class B (a later reply needs another transport read) is the recorded \
-known finding and is excluded by construction and counted. Non-trivial = at least 2 items held \
+known finding and is excluded by construction and counted. One reply in ten is replaced by a \
+top-level failure of the exchange (an org.varlink.service error reply, a frame that is not JSON, or \
+the peer closing): the stream must report it and end, and the items held from before must still \
+read as they did. Non-trivial = at least 2 items held \
 across at least 1 later poll_next in class A; distinct by hash of the case.";
 
 const SIG_KNOWN: &str = "replystream-item-across-read";
@@ -40,6 +43,11 @@ pub struct ReplySpec {
     pub err: bool,
     /// continues:true (only for the `more` form)
     pub continues: bool,
+    /// 0 = an ordinary reply; otherwise the exchange fails here at the top level and the stream
+    /// must end with an `Err` item: 1 = an org.varlink.service error reply, 2 = a frame that is
+    /// not JSON, 3 = the peer closes instead of sending this reply. Later replies are not sent.
+    #[serde(default)]
+    pub term: u8,
 }
 
 #[derive(Debug, Clone, Serialize, Deserialize)]
@@ -58,14 +66,36 @@ fn text_of(i: usize, len: usize) -> String {
 
 impl Case {
     /// Reply frames and, for each, the offset of the borrowed string inside the frame.
+    /// Index of the reply at which the exchange fails at the top level, if any (never reply 0:
+    /// something has to be held when it happens).
+    pub fn term_at(&self) -> Option<usize> {
+        self.replies.iter().enumerate().skip(1).find(|(_, r)| r.term != 0).map(|(i, _)| i)
+    }
+    pub fn closes(&self) -> bool {
+        self.term_at().is_some_and(|i| self.replies[i].term >= 3)
+    }
     pub fn frames(&self) -> Vec<(Vec<u8>, usize)> {
+        let term_at = self.term_at();
+        let sent = match term_at {
+            Some(i) if self.replies[i].term >= 3 => i,
+            Some(i) => i + 1,
+            None => self.replies.len(),
+        };
         let n = self.replies.len();
-        self.replies
+        self.replies[..sent]
             .iter()
             .enumerate()
             .map(|(i, r)| {
                 let s = text_of(i, r.len as usize);
                 let last = i == n - 1;
+                if term_at == Some(i) {
+                    return if r.term == 1 {
+                        let head = r#"{"error":"org.varlink.service.MethodNotFound","parameters":{"method":""#;
+                        (format!("{head}{s}\"}}}}").into_bytes(), head.len())
+                    } else {
+                        (format!("}}{{{s}").into_bytes(), 2)
+                    };
+                }
                 if r.err && (!self.more || last) {
                     let head = r#"{"error":"org.example.Worse","parameters":{"code":1,"msg":""#;
                     (format!("{head}{s}\"}}}}").into_bytes(), head.len())
@@ -105,7 +135,11 @@ pub enum Class {
 pub fn run_case(case: &Case) -> (Class, CaseResult) {
     let stream = case.stream();
     let chunks = split_at_cuts(&stream, &case.cuts);
-    let script: Vec<ReadEv> = chunks.into_iter().map(ReadEv::Data).collect();
+    let mut script: Vec<ReadEv> = chunks.into_iter().map(ReadEv::Data).collect();
+    if case.closes() {
+        script.push(ReadEv::Eof);
+    }
+    let term_at = case.term_at();
     let (sock, handle) = SimSocket::with_script(script);
     let mut conn = Connection::new(sock);
     let frames = case.frames();
@@ -133,6 +167,7 @@ pub fn run_case(case: &Case) -> (Class, CaseResult) {
     };
     let mut s = std::pin::pin!(s);
     let mut held: Vec<Held<'_>> = Vec::new();
+    let mut yielded = 0usize;
     let mut class = Class::A;
     let total = stream.len() as u64;
     let mut polls = 0;
@@ -146,24 +181,36 @@ pub fn run_case(case: &Case) -> (Class, CaseResult) {
                 }
                 continue;
             }
-            Poll::Ready(None) => break,
+            Poll::Ready(None) => {
+                // the stream is over: everything yielded must still read as it did
+                if class == Class::A {
+                    if let Err(f) = recheck(&held, "the stream ended") {
+                        return (class, Err(f));
+                    }
+                }
+                break;
+            }
             Poll::Ready(Some(item)) => {
-                let idx = held.len();
-                let slice: &str = match item {
+                let idx = yielded;
+                yielded += 1;
+                let slice: Option<&str> = match item {
                     Ok(Ok(reply)) => match reply.into_parameters() {
-                        Some(p) => p.name,
+                        Some(p) => Some(p.name),
                         None => return (class, Err(Fail::new("harness", "reply without parameters"))),
                     },
-                    Ok(Err(ErrB::Worse { msg, .. })) => msg,
+                    Ok(Err(ErrB::Worse { msg, .. })) => Some(msg),
+                    Err(_) if term_at == Some(idx) => None,
                     other => return (class, Err(Fail::new("harness", format!("item {idx}: {other:?}")))),
                 };
                 if idx == 0 && handle.read.borrow().bytes < total {
                     class = Class::B;
                 }
-                if idx >= offs.len() {
-                    return (class, Err(Fail::new("harness", "more items than replies")));
+                if let Some(slice) = slice {
+                    if idx >= offs.len() {
+                        return (class, Err(Fail::new("harness", "more items than replies")));
+                    }
+                    held.push(Held { slice, copy: slice.to_string(), stream_off: offs[idx] });
                 }
-                held.push(Held { slice, copy: slice.to_string(), stream_off: offs[idx] });
                 if class == Class::B {
                     // Known finding: do not touch earlier items any more (they may dangle).
                     continue;
@@ -173,44 +220,46 @@ pub fn run_case(case: &Case) -> (Class, CaseResult) {
                 if held[0].copy != expect_first {
                     return (class, Err(Fail::new("item-wrong-when-yielded", format!("item 0 was {:?}", truncate(&held[0].copy, 40)))));
                 }
-                for (k, h) in held.iter().enumerate() {
-                    // content
-                    let now: &str = h.slice;
-                    if now.as_bytes() != h.copy.as_bytes() {
-                        return (
-                            class,
-                            Err(Fail::new(
-                                "held-item-content-changed",
-                                format!(
-                                    "item {k} read {:?} when it was yielded and reads {:?} after item {idx} was obtained",
-                                    truncate(&h.copy, 40),
-                                    truncate(&show_bytes(now.as_bytes()), 60)
-                                ),
-                            )),
-                        );
-                    }
-                    // address consistency with item 0
-                    let d_addr = (h.slice.as_ptr() as isize).wrapping_sub(held[0].slice.as_ptr() as isize);
-                    let d_off = h.stream_off as isize - held[0].stream_off as isize;
-                    if d_addr != d_off {
-                        return (
-                            class,
-                            Err(Fail::new(
-                                "held-items-not-in-one-buffer",
-                                format!(
-                                    "item {k} lies {d_addr} bytes from item 0 but its frame starts {d_off} bytes later in the stream: the receive buffer moved or was compacted while item 0 was held"
-                                ),
-                            )),
-                        );
-                    }
+                let when = if slice.is_some() { format!("item {idx} was obtained") } else { format!("item {idx} reported the failure of the exchange") };
+                if let Err(f) = recheck(&held, &when) {
+                    return (class, Err(f));
                 }
             }
         }
     }
-    if held.len() != case.replies.len() {
-        return (class, Err(Fail::new("harness", format!("{} items for {} replies", held.len(), case.replies.len()))));
+    let expect_items = term_at.unwrap_or(case.replies.len());
+    if held.len() != expect_items || yielded != expect_items + term_at.is_some() as usize {
+        return (class, Err(Fail::new("harness", format!("{} items ({} with data) for {} replies", yielded, held.len(), case.replies.len()))));
     }
     (class, Ok(()))
+}
+
+/// Re-read every held slice: content as when it was yielded, addresses consistent with one buffer.
+fn recheck(held: &[Held<'_>], when: &str) -> CaseResult {
+    for (k, h) in held.iter().enumerate() {
+        let now: &str = h.slice;
+        if now.as_bytes() != h.copy.as_bytes() {
+            return Err(Fail::new(
+                "held-item-content-changed",
+                format!(
+                    "item {k} read {:?} when it was yielded and reads {:?} after {when}",
+                    truncate(&h.copy, 40),
+                    truncate(&show_bytes(now.as_bytes()), 60)
+                ),
+            ));
+        }
+        let d_addr = (h.slice.as_ptr() as isize).wrapping_sub(held[0].slice.as_ptr() as isize);
+        let d_off = h.stream_off as isize - held[0].stream_off as isize;
+        if d_addr != d_off {
+            return Err(Fail::new(
+                "held-items-not-in-one-buffer",
+                format!(
+                    "item {k} lies {d_addr} bytes from item 0 but its frame starts {d_off} bytes later in the stream: the receive buffer moved or was compacted while item 0 was held ({when})"
+                ),
+            ));
+        }
+    }
+    Ok(())
 }
 
 /// The witness of the known finding: two small replies in two reads; no reallocation happens, the
@@ -218,7 +267,7 @@ pub fn run_case(case: &Case) -> (Class, CaseResult) {
 pub fn witness() -> Option<String> {
     let case = Case {
         more: false,
-        replies: vec![ReplySpec { len: 8, err: false, continues: false }, ReplySpec { len: 8, err: false, continues: false }],
+        replies: vec![ReplySpec { len: 8, err: false, continues: false, term: 0 }, ReplySpec { len: 8, err: false, continues: false, term: 0 }],
         cuts: vec![],
     };
     let stream = case.stream();
@@ -254,8 +303,10 @@ fn reply_strategy() -> impl Strategy<Value = ReplySpec> {
         prop_oneof![4 => 0u16..24, 2 => 150u16..300, 1 => 0u16..900],
         prop::bool::weighted(0.2),
         any::<bool>(),
+        // one reply in ten is where the exchange fails at the top level
+        prop_oneof![9 => Just(0u8), 1 => 1u8..=3],
     )
-        .prop_map(|(len, err, continues)| ReplySpec { len, err, continues })
+        .prop_map(|(len, err, continues, term)| ReplySpec { len, err, continues, term })
 }
 
 /// Adjust the last reply so that the batch length hits k*256 + delta.
@@ -293,7 +344,13 @@ pub fn check_case(case: &Case, stats: &mut Stats) -> CaseResult {
     match class {
         Class::A => {
             stats.class("class-A(all replies buffered before the first item)");
-            stats.nontrivial_hash(hash_of(&(case.more, case.replies.iter().map(|r| (r.len, r.err)).collect::<Vec<_>>(), &case.cuts)));
+            stats.nontrivial_hash(hash_of(&(case.more, case.replies.iter().map(|r| (r.len, r.err, r.term)).collect::<Vec<_>>(), &case.cuts)));
+            match case.term_at().map(|i| case.replies[i].term) {
+                Some(1) => stats.class("class-A:ends-with-service-error-reply"),
+                Some(2) => stats.class("class-A:ends-with-undecodable-reply"),
+                Some(_) => stats.class("class-A:ends-with-peer-close"),
+                None => {}
+            }
             let total = case.stream().len();
             if total % 256 == 0 {
                 stats.class("class-A:batch-ends-exactly-at-a-256-step");
@@ -339,7 +396,7 @@ pub fn run(ctx: &Ctx) -> i32 {
     let mut directed = Vec::new();
     for n in 2..=4usize {
         for total in 200..=1100usize {
-            let mut case = Case { more: n % 2 == 0, replies: (0..n).map(|i| ReplySpec { len: (i * 7 % 30) as u16, err: i == 1 && n == 3, continues: true }).collect(), cuts: vec![] };
+            let mut case = Case { more: n % 2 == 0, replies: (0..n).map(|i| ReplySpec { len: (i * 7 % 30) as u16, err: i == 1 && n == 3, continues: true, term: 0 }).collect(), cuts: vec![] };
             let base = case.stream().len();
             if total < base {
                 continue;
